@@ -13,9 +13,10 @@ type SVal struct {
 	S       string
 	T       types.Type // Go type when the value is a Go value; nil for mathematical values
 	Sort    string
-	P       *Ptr       // location of this value (struct values embedded in the heap, fields)
-	Tgt     *Ptr       // for pointer values: static description of the pointee, if known
-	Box     string     // interface values: the boxed term, if statically known
+	P       *Ptr   // location of this value (struct values embedded in the heap, fields)
+	Tgt     *Ptr   // for pointer values: static description of the pointee, if known
+	Box     string // interface values: the boxed term, if statically known
+	BoxSort string
 	TypeArg types.Type // when the expression denotes a type
 	Nil     bool
 }
@@ -395,7 +396,11 @@ func (e *Env) evalSel(x *Expr) SVal {
 		if gs, ok := ts.GhostField[x.Name]; ok && p != nil {
 			gs = e.t.ghostSort(gs, ST)
 			c := e.t.comp("H."+originName(ST)+".$"+x.Name, "(Array Int "+gs+")")
-			return SVal{S: e.inState(func() string { return app("select", e.t.get(c), p.Ref) }), Sort: gs}
+			ref := p.Ref
+			if p.Kind != "obj" {
+				ref = e.t.termOfOpt(Val{P: p}) // a struct embedded by value: its ghost fields live at its address
+			}
+			return SVal{S: e.inState(func() string { return app("select", e.t.get(c), ref) }), Sort: gs}
 		}
 	}
 	e.errf(x, "no field %s in %s", x.Name, ST)
@@ -510,6 +515,9 @@ func arrayKeySort(s string) string {
 func (e *Env) typeArg(x *Expr) types.Type {
 	if x.Op == "un" && x.Name == "*" {
 		return types.NewPointer(e.typeArg(x.Args[0]))
+	}
+	if x.Op == "slicetype" {
+		return types.NewSlice(e.typeArg(x.Args[0]))
 	}
 	if x.Op == "sel" && x.Args[0].Op == "id" {
 		// pkg.Type
@@ -710,6 +718,9 @@ func (e *Env) evalCall(x *Expr) SVal {
 		return SVal{S: app(">=", s, "1"), Sort: "Bool"}
 	case "unlocked":
 		lc, ref := e.lockComp(x.Args[0])
+		if t.collectUnlocked != nil {
+			*t.collectUnlocked = append(*t.collectUnlocked, lc)
+		}
 		s := e.inState(func() string { return app("select", t.get(lc), ref) })
 		return SVal{S: eq(s, "0"), Sort: "Bool"}
 	case "typeof":
@@ -720,7 +731,7 @@ func (e *Env) evalCall(x *Expr) SVal {
 	case "unbox":
 		T := e.typeArg(x.Args[0])
 		v := e.eval(x.Args[1])
-		if v.Box != "" {
+		if v.Box != "" && v.BoxSort == t.sortOf(T) {
 			return SVal{S: v.Box, T: T, Sort: t.sortOf(T)}
 		}
 		return SVal{S: t.unbox(v.S, T), T: T, Sort: t.sortOf(T)}
@@ -750,6 +761,9 @@ func (e *Env) evalCall(x *Expr) SVal {
 		return SVal{S: app("s.off", v.S), Sort: "Int"}
 	case "int": // int(x): forget Go type
 		v := e.eval(x.Args[0])
+		if v.Sort == "Bool" {
+			return SVal{S: ite(v.S, "1", "0"), Sort: "Int"}
+		}
 		return SVal{S: v.S, Sort: v.Sort}
 	case "elems": // elems(s): (Array Int T) backing array of slice s
 		v := e.eval(x.Args[0])
